@@ -120,6 +120,24 @@ class ConcH:
                 return getattr(self._real, k)
         mo.np._srcmodule = _Proxy(mo._np)
 
+    def memfile(self, suffix='.dat'):
+        import tempfile
+        d = os.path.join(os.path.dirname(os.path.dirname(os.path.abspath(__file__))), '.tmp')
+        os.makedirs(d, exist_ok=True)
+        fd, path = tempfile.mkstemp(suffix=suffix, dir=d)
+        os.close(fd)
+        self._tmpfiles = getattr(self, '_tmpfiles', []) + [path]
+        return path
+
+    def truncate(self, f, nbytes):
+        data = open(f, 'rb').read()[:nbytes]
+        g = self.memfile(os.path.splitext(f)[1])
+        open(g, 'wb').write(data)
+        return g
+
+    def filesize(self, f):
+        return os.path.getsize(f)
+
     def frac(self, a, b=1):
         return a / b
 
@@ -304,6 +322,11 @@ def run_job(job):
             exc = {'type': type(e).__name__, 'msg': str(e)[:300], 'where': where}
         finally:
             np.seterr(**old)
+            for f in getattr(H, '_tmpfiles', []):
+                try:
+                    os.remove(f)
+                except OSError:
+                    pass
     return {'records': H.records, 'exception': exc}
 
 
